@@ -37,6 +37,8 @@ pub enum Op {
     CompactAll,
     /// run read-only commands, no barrier in between
     Observe { queries: Vec<String> },
+    /// the same, with all queries in flight at once (each in its own task); replies in query order
+    ObservePar { queries: Vec<String> },
     /// set the wall clock (epoch ms)
     Clock { ms: i64 },
     Tick { ms: i64 },
@@ -472,6 +474,39 @@ async fn interpret(
                             st.blocked = true;
                             st.replies.push(Reply::failed("blocked".into()));
                         }
+                    }
+                }
+            }
+            Op::ObservePar { queries } => {
+                // gates trapped from here on belong to the readers: they are released once every
+                // reader has run as far as it can, so that one reader sits at its gate (holding
+                // what it holds there) while the others start
+                let parked_before = gatectl.lock().unwrap().parked.len();
+                let mut hs = Vec::new();
+                for q in queries {
+                    let s2 = sys.clone();
+                    let q2 = q.clone();
+                    hs.push(tokio::spawn(async move { tokio::time::timeout(HORIZON, s2.exec(&q2)).await }));
+                }
+                sys.barrier().await;
+                let mine: Vec<_> = {
+                    let mut g = gatectl.lock().unwrap();
+                    g.traps.retain(|t| t.gate != "read.passive_locked");
+                    let keep = parked_before.min(g.parked.len());
+                    g.parked.split_off(keep)
+                };
+                st.note = format!("readers_released={}", mine.len());
+                for tx in mine {
+                    let _ = tx.send(());
+                }
+                for h in hs {
+                    match h.await {
+                        Ok(Ok(r)) => st.replies.push(r),
+                        Ok(Err(_)) => {
+                            st.blocked = true;
+                            st.replies.push(Reply::failed("blocked".into()));
+                        }
+                        Err(e) => st.replies.push(Reply::failed(format!("read task failed: {e}"))),
                     }
                 }
             }
